@@ -75,6 +75,10 @@ CLAIMED = {
  'C15': ('fault_enumeration', 'delivery monitor over the request log of a crawl-HQ double with a scripted fault sequence (5xx, reset, stall on the k-th add/delete/get) driven by the real pipeline and the real gocrawlhq client; local-queue variant over hook events and lq.db',
          'Obligations are known by construction (planted outlinks of crawled pages below the hop limit, seeds handed out): at structural quiescence with the fault script exhausted each must have been carried by a successful call with value, via and hop path intact, ids acknowledged, hops surviving the round trip; in LQ mode rows carry value/via/hops, no URL is handed out twice, finished rows are gone.',
          'Fault scripts are seeded samples of finite sequences; the double mirrors the endpoints/status codes of the pinned client, not the real service.', '4/C15'),
+
+ 'C16': ('exploration', 'in-process footprint probes (goroutines, /proc/self/fd by class, temp dir, reactor and limiter shims) at two structurally quiescent points of one pipeline lifetime, after N and after 4N seeds',
+         'The real pipeline processes a mix that exercises every release path (2 MiB+ spooled bodies, always-503 with retries, resets, redirects, 404s, JSON assets, more hosts than limiter buckets); the two stable footprints must agree, no temp file or tracked seed may remain, the limiter table must stay within its bound.',
+         'Growth is judged between N and 4N only (N up to 100 in the thorough tier); origin in the parent process; LevelDB/log descriptors are classed apart.', '4/C16'),
 }
 NOT_BUILT = 'check not built yet in this session (planned, see DESIGN.md section 4)'
 
